@@ -110,7 +110,7 @@ impl fmt::Display for AccountDeclaration<'_> {
 impl fmt::Display for AccountDetail<'_> {
     fn fmt(&self, f: &mut fmt::Formatter<'_>) -> fmt::Result {
         match self {
-            AccountDetail::Comment(v) => LineWrapStr::wrap("    ; ", v).fmt(f),
+            AccountDetail::Comment(v) => LineWrapStr::wrap("    ;", v).fmt(f),
             AccountDetail::Note(v) => LineWrapStr::wrap("    note ", v).fmt(f),
             AccountDetail::Alias(v) => writeln!(f, "    alias {}", v),
         }
@@ -129,7 +129,7 @@ impl fmt::Display for WithContext<'_, CommodityDeclaration<'_>> {
 impl fmt::Display for WithContext<'_, CommodityDetail<'_>> {
     fn fmt(&self, f: &mut fmt::Formatter<'_>) -> fmt::Result {
         match self.value {
-            CommodityDetail::Comment(v) => LineWrapStr::wrap("    ; ", v).fmt(f),
+            CommodityDetail::Comment(v) => LineWrapStr::wrap("    ;", v).fmt(f),
             CommodityDetail::Note(v) => LineWrapStr::wrap("    note ", v).fmt(f),
             CommodityDetail::Alias(v) => writeln!(f, "    alias {}", v),
             CommodityDetail::Format(v) => writeln!(f, "    format {}", self.pass_context(v)),
